@@ -36,7 +36,7 @@ def strip_generics(s):
     i = 0
     n = len(s)
     while i < n:
-        if s.startswith("::<", i) and not s.startswith("::<impl", i):
+        if s.startswith("::<", i):
             depth = 0
             j = i + 2
             while j < n:
@@ -47,8 +47,11 @@ def strip_generics(s):
                     if depth == 0:
                         break
                 j += 1
-            i = j + 1
-            continue
+            # `path::<impl T>::method` is an impl-block segment (kept); `f::<impl Trait>` at the end is a turbofish
+            is_impl_segment = s.startswith("::<impl ", i) and s.startswith("::", j + 1) and not s.startswith("::{", j + 1)
+            if not is_impl_segment:
+                i = j + 1
+                continue
         out.append(s[i])
         i += 1
     return "".join(out)
@@ -138,8 +141,9 @@ def short_callee(full):
                 name += "<%s>" % ta
         return name
     # path::<impl Trait for T>::method   /  path::<impl T>::method
-    m = re.search(r"<impl (.*)>::([A-Za-z_0-9]+)", s)
+    m = re.search(r"<impl (.*)>::([A-Za-z_0-9]+)", strip_generics(s))
     if m:
+        s = strip_generics(s)
         k = s.find("<impl ")
         inner, after = balanced_inner(s, k)
         inner = inner[5:]
